@@ -615,8 +615,24 @@ func oracleC18(r *Result) ([]Violation, bool) {
 	lastTo := map[string]string{}
 	afterStart := map[string]bool{}
 	termTok := map[string]string{}
+	opByID := map[string]*Op{}
+	for _, op := range r.Ops {
+		opByID[op.ID] = op
+	}
+	// ids read by periodic checks that were answered since the last quiescent point
+	pcheckRead := map[string]string{}
 	for _, e := range r.Trace {
 		switch e.K {
+		case "op.issue":
+			if op := opByID[e.Op]; op != nil && op.Label == "pcheck" {
+				delete(pcheckRead, op.Inst)
+			}
+		case "op.answer":
+			if op := opByID[e.Op]; op != nil && op.Label == "pcheck" && op.Kind == "Get" && op.resErr == nil && op.ErrText == "" && op.Read != nil && !op.Read.Del {
+				if rv := parseRec(op.Read); rv != nil && rv.ID != "" {
+					pcheckRead[op.Inst] = rv.ID
+				}
+			}
 		case "api.call":
 			if strings.HasPrefix(e.S, "start:") {
 				stopped[e.I] = false
@@ -698,6 +714,13 @@ func oracleC18(r *Result) ([]Violation, bool) {
 				}
 				if sn.Gauge >= 0 && !sn.InStop && !sn.Fine && (sn.Gauge == 1) != sn.IsLeader {
 					s.add(e.T, "gauge-differs", "%s: is-leader gauge is %d but IsLeader()=%v at %v", sn.I, sn.Gauge, sn.IsLeader, e.T)
+				}
+				// follower convergence through the periodic check: the check has just read a
+				// record naming X, the live record still names X, the instance follows
+				if id, ok := pcheckRead[sn.I]; ok {
+					if rec := recOf(r, &e, sn.I); sn.Started && !sn.StopDone && !sn.InStop && !sn.IsLeader && !sn.Cut && !sn.Fine && rec != nil && rec.ID == id && sn.LeaderID != id {
+						s.add(e.T, "follower-leaderid-stale/periodic-check", "%s: the periodic check has just read the live record naming %q, but the follower's LeaderID() is %q at %v", sn.I, id, sn.LeaderID, e.T)
+					}
 				}
 				// follower convergence
 				if rec := recOf(r, &e, sn.I); sn.Started && !sn.StopDone && !sn.InStop && !sn.IsLeader && !sn.Cut && sn.WQ == 0 && sn.WDeliv > 0 && sn.Pend == 0 && rec != nil && rec.ID != "" && r.Scn.Tags["follower-convergence"] != "" {
